@@ -14,11 +14,13 @@ the low-bit test (`keepOne`).
 * `C19_exact_regime`, `C19_reset_restores` — the exact regime;
 * `C19_count_shape` — `Count = Len·2^k`, `k` monotone, bounded by 64;
 * `C19_len_bound_conditional`, `C19_len_bound_run` — `Len ≤ size` **unless a
-  halving pass kept every element**; `C19_F8_witness` — the recorded history on
+  halving pass kept every element**; `C19_len_bound_unconditional` — always `Len ≤ size + k ≤ size + 64`
+  and `Len ≤ size +` (number of keep-all passes); `C19_F8_witness` — the recorded history on
   which `Len = 3 > 2` (known finding F8: one halving pass, `if` not `for`);
 * `C19_current` — the facts regenerated from distinct.go are the pinned ones;
 * unbiasedness as an exact expectation in the idealised probabilistic semantics `addD`/`runD`
-  (`Proofs/DistinctExp.lean`): `C19_unbiased_per_value`, `C19_unbiased`, `C19_coin_fraction`,
+  (`Proofs/DistinctExp.lean`; NOT the executable `add`: the two share state, `ins`/`erase`, capacity test and
+  single halving pass, and are linked only by the coin-fraction lemma `C19_coin_fraction`): `C19_unbiased_per_value`, `C19_unbiased`, `C19_coin_fraction`,
   `C19_bias_bound_partial`.
 -/
 namespace MdsVerif.Props.C19
@@ -115,6 +117,31 @@ theorem C19_len_bound_run (keepOne : Bool) (size : Nat) (ops : List Op)
 /-- non-vacuity: a halving pass that drops an element keeps `Len ≤ size` -/
 example : (run true (new 2) [.add 1 [] [], .add 2 [1] [1, 2], .add 3 [0, 3] [1, 3]]).len = 2 := by decide
 
+/-- **Len bound, unconditional.**  For every size, every history of `Add`s and `Reset`s from a fresh counter,
+    every script of random words and every visiting order — no hypothesis on what the halving passes kept —
+    after every call (the history is arbitrary, so this is every prefix):
+    `Len ≤ size + k`, where `k ≤ 64` is the number of halving passes since construction/`Reset`
+    (`Count = Len·2^k`), hence `Len ≤ size + 64` always; and more sharply `Len ≤ size +` the number of halving
+    passes of the history that kept every element (so `C19_len_bound_run` is the case where that number
+    is 0, and F8 is exactly the possibility of it being positive). -/
+theorem C19_len_bound_unconditional (keepOne : Bool) (size : Nat) (ops : List Op) :
+    let s := run keepOne (new size) ops
+    s.len ≤ size + s.k ∧ s.k ≤ 64 ∧ s.len ≤ size + 64 ∧
+    s.len ≤ size + keptAllCount (outs keepOne (new size) ops) := by
+  intro s
+  have h1 : s.len ≤ size + s.k := run_len_le_k keepOne ops (new size) (Nat.zero_le _)
+  have h2 : s.k ≤ 64 := run_k_le_64 keepOne ops (new size) (Nat.zero_le _)
+  have h3 : s.len ≤ size + 0 + keptAllCount (outs keepOne (new size) ops) :=
+    run_len_excess keepOne ops (new size) 0 (Nat.zero_le _)
+  exact ⟨h1, h2, by omega, by omega⟩
+
+/-- non-vacuity: on the F8 history the bounds are attained with `k = 2` and two keep-all passes:
+    `Len = 3 = size + 1`, within `size + k = 4` and `size + keptAllCount = 4` -/
+example :
+    let ops := [Op.add 1 [] [], .add 2 [3] [1, 2], .add 3 [0, 7] [1, 2, 3]]
+    (run true (new 2) ops).len = 3 ∧ (run true (new 2) ops).k = 2 ∧ keptAllCount (outs true (new 2) ops) = 2 := by
+  decide
+
 /-
 Full-strength statement that the property text asks for and that is FALSE for the code as it is
 (`C19_F8_witness`):
@@ -146,7 +173,9 @@ theorem C19_current :
     Gen.Distinct.recognised = true ∧ Gen.Distinct.capOp = ">=" ∧ Gen.Distinct.halvingIsLoop = false ∧
     Gen.Distinct.pShift = 1 ∧ Gen.Distinct.coinDropOp = ">=" ∧ Gen.Distinct.coinGuardOp = "<" ∧
     ((Gen.Distinct.removeBit = 0 ∧ Gen.Distinct.keepOne = true) ∨
-     (Gen.Distinct.removeBit = 1 ∧ Gen.Distinct.keepOne = false)) := by
+     (Gen.Distinct.removeBit = 1 ∧ Gen.Distinct.keepOne = false)) ∧
+    Gen.Distinct.newCap = "size" ∧ Gen.Distinct.newP = "math.MaxUint64" ∧
+    Gen.Distinct.newBuf = "make(mapset.Set[T])" ∧ Gen.Distinct.newRng = "rand.NewChaCha8(seed)" := by
   decide
 
 /-! ## Unbiasedness (idealised probabilistic semantics: independent uniform words)
